@@ -15,7 +15,8 @@ from .. import terms as T
 from ..core import AnalysisError
 from ..model import FuncRef, NotConst
 from . import register
-from .schema import (r_schema, r_fields, r_composite, r_gate, r_hdr_current, r_setcur, current_version, SCHEMA_CLASSES)
+from .schema import (r_schema, r_fields, r_composite, r_gate, r_hdr_current, r_setcur, current_version, SCHEMA_CLASSES,
+                     r_defassign)
 
 FLOORS = dict(SCHEMA_CLASSES)
 
@@ -266,6 +267,7 @@ def check_c01(model, rep, tier):
     r_uid_format(model, rep)
     r_paths(model, rep)
     r_io_chain(model, rep)
+    r_defassign(model, rep, ["composeinfo"])
     rep.floor("R-SCHEMA", 60)
 
 
@@ -355,6 +357,7 @@ def check_c02(model, rep, tier):
     r_composite(model, rep, "images.Images", ["header", "compose"])
     r_cells(model, rep)
     r_io_chain(model, rep)
+    r_defassign(model, rep, ["images"])
 
 
 # ---------------------------------------------------------------------------------------------------------
@@ -411,6 +414,7 @@ def check_c03(model, rep, tier):
         r_schema(model, rep, q, FLOORS[q])
     r_keys(model, rep)
     r_io_chain(model, rep)
+    r_defassign(model, rep, ["rpms", "modules", "extra_files"])
 
 
 # ---------------------------------------------------------------------------------------------------------
@@ -807,6 +811,7 @@ def check_c04(model, rep, tier):
     r_cks_reader(model, rep, rule_id="R-CKS-FORMAT")
     r_parser_symmetry(model, rep)
     r_discinfo_pos(model, rep)
+    r_defassign(model, rep, ["treeinfo", "discinfo"])
     rep.floor("R-SCHEMA", 50)
 
 
